@@ -99,9 +99,13 @@ def check_schema(run, schema, label):
     from py_gql.utilities import introspection_query
     n = 0
     for descriptions in (True, False):
-        res = graphql_blocking(schema, introspection_query(descriptions))
         n += 1
         w = {"schema": label, "descriptions": descriptions}
+        try:
+            res = graphql_blocking(schema, introspection_query(descriptions))
+        except Exception as e:
+            run.violation("introspection:standard-query-succeeds", "the standard introspection query raised %r" % (e,), dict(w, exc=type(e).__name__), True)
+            continue
         if res.errors or not res.data:
             run.violation("introspection:standard-query-succeeds", "the standard introspection query fails: %r" % ([str(e) for e in res.errors][:2],), w, True)
             continue
@@ -166,7 +170,11 @@ def check_schema(run, schema, label):
                     run.violation("introspection:reports-exactly-the-schema", diff, w, True)
     # includeDeprecated false hides deprecated members
     q = "{ __schema { types { name fields(includeDeprecated: false) { name } enumValues(includeDeprecated: false) { name } d: fields { name } e: enumValues { name } } } }"
-    res = graphql_blocking(schema, q)
+    try:
+        res = graphql_blocking(schema, q)
+    except Exception as e:
+        run.violation("introspection:standard-query-succeeds", "includeDeprecated query raised %r" % (e,), {"schema": label, "exc": type(e).__name__}, True)
+        return n + 1
     n += 1
     want = expected_types(schema, include_deprecated=False)
     if res.errors:
